@@ -423,6 +423,15 @@ func vC01ParkedProgram(rnd *vRand, maxSeg int64) []string {
 	for i := 0; i < 1+rnd.Intn(3); i++ {
 		app(1 + rnd.Intn(3))
 	}
+	if next >= 2 && rnd.Intn(3) == 0 {
+		// a tail truncation first: the segment that is active afterwards (rewritten, or the previous one made active
+		// again) is where the reader will park and from where the log rolls on
+		prog = append(prog, fmt.Sprintf("truncate %d", next-1))
+		next--
+		if rnd.Bool() {
+			app(1)
+		}
+	}
 	mode := "c"
 	if rnd.Intn(3) == 0 {
 		mode = "u"
